@@ -153,6 +153,7 @@ def _apply_holder_op(h, l):
 
 core.NO_THREAD_OPS.update(range(1500, 1530))   # catch_warnings below swaps the process-wide filter list
 core.NO_THREAD_OPS.add(1599)
+core.NO_LIVE_PROBE_OPS.add(1599)   # thousands of objects per case
 
 
 # ------------------------------------------------------------------ exploration outside the model (op 1599)
